@@ -173,6 +173,10 @@ def run_family(case, bus, ex):
     order = int(rng.integers(0, 5))
     M = U(0.5, 3.0)
     sflag, cons = bool(rng.integers(0, 2)), bool(rng.integers(0, 2))
+    ckw = {}
+    if rng.uniform() < 0.3 and order > 0:        # documented contour options must pass through every interface unchanged
+        Mc, rc_ = zoo.CONTOURS[int(rng.integers(0, len(zoo.CONTOURS)))]
+        ckw = dict(num_circle_points=Mc, circle_radius=rc_)
     # ---- model-side conversions (documented formulas)
     alpha = [x * dt / L ** j for j, x in enumerate(a)]
     gamma = [alpha[0]] + [alpha[j] * N ** j * 2 ** (j - 1) * D for j in range(1, len(alpha))]
@@ -196,7 +200,7 @@ def run_family(case, bus, ex):
         b1 = U(0.3, 1.5)
         beta = b1 * dt / L
         delta = beta * M * N * D
-        kw = dict(single_channel=sflag, conservative=cons, order=order)
+        kw = dict(single_channel=sflag, conservative=cons, order=order, **ckw)
         C = 1 if sflag else D
         g = Gn.GeneralConvectionStepper(D, L, N, dt, linear_coefficients=tuple(a), convection_scale=b1, **kw)
         n = Gn.NormalizedConvectionStepper(D, N, normalized_linear_coefficients=tuple(alpha), normalized_convection_scale=beta, **kw)
@@ -207,7 +211,7 @@ def run_family(case, bus, ex):
         for sf, co, frac in ((False, True, 2 / 3), (True, True, 2 / 3), (False, False, 2 / 3), (True, False, 2 / 3), (False, True, 1.0), (True, True, 0.5)):
             if (sf, co, frac) == (sflag, cons, 2 / 3):
                 continue
-            kw2 = dict(single_channel=sf, conservative=co, order=order, dealiasing_fraction=frac)
+            kw2 = dict(single_channel=sf, conservative=co, order=order, dealiasing_fraction=frac, **ckw)
             g2 = Gn.GeneralConvectionStepper(D, L, N, dt, linear_coefficients=tuple(a), convection_scale=b1, **kw2)
             n2 = Gn.NormalizedConvectionStepper(D, N, normalized_linear_coefficients=tuple(alpha), normalized_convection_scale=beta, **kw2)
             d2 = Gn.DifficultyConvectionStepper(D, N, linear_difficulties=tuple(gamma), convection_difficulty=delta, maximum_absolute=M, **kw2)
@@ -216,27 +220,27 @@ def run_family(case, bus, ex):
         b2 = U(0.3, 1.5) * sc ** 2
         beta = b2 * dt / L ** 2
         delta = beta * M * N ** 2 * D
-        g = Gn.GeneralGradientNormStepper(D, L, N, dt, linear_coefficients=tuple(a), gradient_norm_scale=b2, order=order)
-        n = Gn.NormalizedGradientNormStepper(D, N, normalized_linear_coefficients=tuple(alpha), normalized_gradient_norm_scale=beta, order=order)
-        d = Gn.DifficultyGradientNormStepper(D, N, linear_difficulties=tuple(gamma), gradient_norm_difficulty=delta, maximum_absolute=M, order=order)
-        r = Gn.GeneralGradientNormStepper(D, L2, N, dt2, linear_coefficients=tuple(a2), gradient_norm_scale=beta * L2 ** 2 / dt2, order=order)
+        g = Gn.GeneralGradientNormStepper(D, L, N, dt, linear_coefficients=tuple(a), gradient_norm_scale=b2, order=order, **ckw)
+        n = Gn.NormalizedGradientNormStepper(D, N, normalized_linear_coefficients=tuple(alpha), normalized_gradient_norm_scale=beta, order=order, **ckw)
+        d = Gn.DifficultyGradientNormStepper(D, N, linear_difficulties=tuple(gamma), gradient_norm_difficulty=delta, maximum_absolute=M, order=order, **ckw)
+        r = Gn.GeneralGradientNormStepper(D, L2, N, dt2, linear_coefficients=tuple(a2), gradient_norm_scale=beta * L2 ** 2 / dt2, order=order, **ckw)
         extra = []
     elif fam == "polynomial":
         p = [U(-0.3, 0.3), U(-0.5, 0.5), -U(0.2, 1.0)]
         pn = [x * dt for x in p]
-        g = Gn.GeneralPolynomialStepper(D, L, N, dt, linear_coefficients=tuple(a), polynomial_coefficients=tuple(p), order=order)
-        n = Gn.NormalizedPolynomialStepper(D, N, normalized_linear_coefficients=tuple(alpha), normalized_polynomial_coefficients=tuple(pn), order=order)
-        d = Gn.DifficultyPolynomialStepper(D, N, linear_difficulties=tuple(gamma), polynomial_difficulties=tuple(pn), order=order)
-        r = Gn.GeneralPolynomialStepper(D, L2, N, dt2, linear_coefficients=tuple(a2), polynomial_coefficients=tuple(x / dt2 for x in pn), order=order)
+        g = Gn.GeneralPolynomialStepper(D, L, N, dt, linear_coefficients=tuple(a), polynomial_coefficients=tuple(p), order=order, **ckw)
+        n = Gn.NormalizedPolynomialStepper(D, N, normalized_linear_coefficients=tuple(alpha), normalized_polynomial_coefficients=tuple(pn), order=order, **ckw)
+        d = Gn.DifficultyPolynomialStepper(D, N, linear_difficulties=tuple(gamma), polynomial_difficulties=tuple(pn), order=order, **ckw)
+        r = Gn.GeneralPolynomialStepper(D, L2, N, dt2, linear_coefficients=tuple(a2), polynomial_coefficients=tuple(x / dt2 for x in pn), order=order, **ckw)
         extra = []
     else:
         b = [U(-0.5, 0.5), -U(0.3, 1.0), U(-0.5, 0.5) * sc ** 2]
         bn = [b[0] * dt, b[1] * dt / L, b[2] * dt / L ** 2]
         bd = [bn[0], bn[1] * M * N * D, bn[2] * M * N ** 2 * D]
-        g = Gn.GeneralNonlinearStepper(D, L, N, dt, linear_coefficients=tuple(a), nonlinear_coefficients=tuple(b), order=order)
-        n = Gn.NormalizedNonlinearStepper(D, N, normalized_linear_coefficients=tuple(alpha), normalized_nonlinear_coefficients=tuple(bn), order=order)
-        d = Gn.DifficultyNonlinearStepper(D, N, linear_difficulties=tuple(gamma), nonlinear_difficulties=tuple(bd), maximum_absolute=M, order=order)
-        r = Gn.GeneralNonlinearStepper(D, L2, N, dt2, linear_coefficients=tuple(a2), nonlinear_coefficients=(bn[0] / dt2, bn[1] * L2 / dt2, bn[2] * L2 ** 2 / dt2), order=order)
+        g = Gn.GeneralNonlinearStepper(D, L, N, dt, linear_coefficients=tuple(a), nonlinear_coefficients=tuple(b), order=order, **ckw)
+        n = Gn.NormalizedNonlinearStepper(D, N, normalized_linear_coefficients=tuple(alpha), normalized_nonlinear_coefficients=tuple(bn), order=order, **ckw)
+        d = Gn.DifficultyNonlinearStepper(D, N, linear_difficulties=tuple(gamma), nonlinear_difficulties=tuple(bd), maximum_absolute=M, order=order, **ckw)
+        r = Gn.GeneralNonlinearStepper(D, L2, N, dt2, linear_coefficients=tuple(a2), nonlinear_coefficients=(bn[0] / dt2, bn[1] * L2 / dt2, bn[2] * L2 ** 2 / dt2), order=order, **ckw)
         extra = []
     flags = (sflag, cons) if fam == "convection" else ()
     for kind in ("white", "smooth"):
